@@ -55,17 +55,18 @@ type reply struct {
 
 // Request is one parked object-store call.
 type Request struct {
-	arrival int // arrival counter; NOT used for ordering (depends on goroutine timing)
-	H       *Handle
-	Op      Op
-	Key     string // object key, or prefix for LIST, or label for STEP
-	Body    []byte
-	Token   string
-	ctx     context.Context
-	ch      chan reply
-	settled bool // reply sent or cancelled
-	stalled bool // scheduler decided to leave it parked
-	Nth     int  // per-incarnation request index (1-based), assigned at arrival in program order per goroutine; see note in submit
+	arrival   int // arrival counter; NOT used for ordering (depends on goroutine timing)
+	H         *Handle
+	Op        Op
+	Key       string // object key, or prefix for LIST, or label for STEP
+	Body      []byte
+	Token     string
+	ctx       context.Context
+	ch        chan reply
+	settled   bool // reply sent or cancelled
+	stalled   bool // scheduler decided to leave it parked
+	cancelReq bool // the caller's context ended while parked; the scheduler settles it
+	Nth       int  // per-incarnation request index (1-based), assigned at arrival in program order per goroutine; see note in submit
 }
 
 func (r *Request) BodyHash() string {
@@ -198,18 +199,49 @@ func (h *Handle) submit(ctx context.Context, r *Request) reply {
 	case rep := <-r.ch:
 		return rep
 	case <-done:
+		// The request context ended (deadline). The cancellation is not logged from here: callers of
+		// one flush (or of several clients under batch release) would race for the log position. The
+		// request is flagged and the scheduler settles all flagged requests in canonical order at the
+		// next quiescent point.
 		s.mu.Lock()
-		if r.settled {
-			s.mu.Unlock()
-			return <-r.ch
+		if !r.settled {
+			r.cancelReq = true
 		}
-		r.settled = true
-		s.removeLocked(r)
-		s.logLocked(r, "canceled", false, 0)
 		s.mu.Unlock()
-		// What the AWS SDK returns when the request context ends.
-		return reply{err: awserr.New(request.CanceledErrorCode, "request context canceled", ctx.Err())}
+		return <-r.ch
 	}
+}
+
+// Cancelled returns the parked requests whose context has ended, in canonical order.
+func (s *Store) Cancelled() []*Request {
+	s.mu.Lock()
+	defer s.mu.Unlock()
+	var out []*Request
+	for _, r := range s.pending {
+		if !r.settled && r.cancelReq {
+			out = append(out, r)
+		}
+	}
+	sort.SliceStable(out, func(i, j int) bool { return out[i].sortKey() < out[j].sortKey() })
+	return out
+}
+
+// SettleCancelled answers a request whose context ended the way the AWS SDK does.
+func (s *Store) SettleCancelled(r *Request) *Event {
+	s.mu.Lock()
+	defer s.mu.Unlock()
+	if r.settled {
+		return nil
+	}
+	r.settled = true
+	s.removeLocked(r)
+	ev := s.logLocked(r, "canceled", false, 0)
+	var cause error
+	if r.ctx != nil {
+		cause = r.ctx.Err()
+	}
+	r.ch <- reply{err: awserr.New(request.CanceledErrorCode, "request context canceled", cause)}
+	return ev
 }
 
 func (s *Store) removeLocked(r *Request) {
@@ -235,7 +267,7 @@ func (s *Store) Pending() []*Request {
 	defer s.mu.Unlock()
 	out := make([]*Request, 0, len(s.pending))
 	for _, r := range s.pending {
-		if !r.settled {
+		if !r.settled && !r.cancelReq {
 			out = append(out, r)
 		}
 	}
